@@ -4,7 +4,9 @@ check_module(module, program) -> list of problems; a problem is a dict(kind, whe
 Rules (DESIGN.md C14): unique references per function; every operand is a Value whose reference
 is that of a constant of the function or of an instruction currently in the function; branches
 name blocks of the same function (both targets when conditional); calls name a function of the
-linked program with the same argument count; every use is dominated by a definition on every
+linked program with the same argument count; an instruction whose opcode is a store still carries the
+value it stores and a return of a non-void function its value (an optimisation that drops the operand but
+keeps the opcode leaves something the VM cannot execute); every use is dominated by a definition on every
 path (forward must-analysis to the greatest fixpoint over the instruction-level CFG the VM
 executes: blocks laid out in order, fall-through between blocks, branch/return as the only
 control transfers).
@@ -119,6 +121,8 @@ def check_function(fn, program, L, unknown_classes=None):
                 prob("bad-branch-target", "false-unconditional", f"branch %{ins.Reference} false target {f!r}")
         if isinstance(ins, L.ReturnInstruction) and ins.Value is None and not fn.Type.ReturnType.IsVoid():
             prob("missing-operand", "ReturnInstruction.value", f"return %{ins.Reference} of a non-void function has lost its value operand")
+        if ins.OpCode.name in ("STORE", "STORE_ARRAY", "STORE_MEMBER") and getattr(ins, "Store", 0) is None:
+            prob("missing-operand", f"{cname}.store", f"%{ins.Reference} ({ins.OpCode.name}) has lost the value it stores")
         if isinstance(ins, L.CallInstruction) and program is not None:
             tgt = program.Functions.get(ins.Function)
             if tgt is None:
